@@ -1,18 +1,27 @@
 """C01 — Tasks start only after everything they consume from is finished.
 
-Implementation under test: the real Controller / ComponentState / StageState of /repo, executed
-single-threaded by harness/detsim.py; the harness chooses the order of task exits, notification
-deliveries, scheduler passes (and an occasional killController).
-Model: lean/St4sd/Model/Ctrl.lean via drv-c01.  Theorems: lean/St4sd/Props/C01.lean.
+Implementation under test: the real Controller / ComponentState / StageState of /repo (and, in a quarter of the
+cases, the real Engine: run / restart / kill / exitReason with a scripted task generator), executed deterministically by
+harness/detsim.py; the harness chooses the order of task exits, notification deliveries, scheduler passes (and an
+occasional killController).  Notifications travel through the REAL RxPY pipelines of the Controller
+(observe_on(controllerPool), filter): the controller pool is a queue whose items run when the harness says so.  The
+handler of a finished-notification may be executed in three separately scheduled parts - before / under / after
+Controller.comp_lock (ops finA, finB, finC) - between which scheduler passes and other events happen.
+Model: lean/St4sd/Model/Ctrl.lean + CtrlSplit.lean via drv-c01.  Theorems: lean/St4sd/Props/C01.lean.
 
-Per case: a generated FlowIR template (1-3 stages) is replicated by the real loader, exit scripts are drawn
+A. per static case: a generated FlowIR template (1-3 stages) is replicated by the real loader, exit scripts are drawn
 per component, the stage loop (Controller.initialise / real Controller.run() per stage, elaunch's
 continue-on-error rule) is driven by a random schedule; the recorded op list is then
 applied to the Lean model and the canonical state after EVERY op is compared
 ({component: (state, in comp_done, in comp_staged_in, #engine.run(), finishCalled)}, stop_executing,
-queued notifications) as well as the launch log (what every first launch saw of its producers).
+queued notifications, notifications in flight) as well as the launch log (what every first launch saw of its producers).
 Oracle (model independent): at every engine.run() the property text is evaluated on the producers'
-true states.
+TRUE states: a producer that has ended is judged by the first final state it entered (its own exit / the first
+finish() call), whatever the controller reports about it at launch time.
+B. per DoWhile case (no Lean model of loops: failing-input search): a package with one DoWhile document (1-4
+iterations, the condition file is written when the condition producer succeeds) and consumers outside the loop
+(:ref / :loopref, same or next stage); oracle at the end of the run: every launched component is judged against ALL
+producers it finally has in the graph, i.e. every iteration instantiated while the workflow ran.
 """
 from __future__ import annotations
 
@@ -26,16 +35,20 @@ from harness import detsim
 
 CLASSIFIERS = {}
 
-RULE = ("case = (FlowIR template of 2-8 components over 1-3 stages - random, or built around a motif: replicated "
+RULE = ("case = A. (FlowIR template of 2-8 components over 1-3 stages - random, or built around a motif: replicated "
         "producer with an aggregating consumer in the same or a later stage / shutdown chain across stages / "
         "observer with several subjects - with at most one replicated chain, aggregators (also without replicated "
         "inputs), repeating observers, shutdownOn/restartHookOn/maxRestarts drawn at random, continue-on-error on "
-        "some stages; exit script per component; the whole stage loop is run: random schedule of task exits / "
-        "postmortem deliveries / finished deliveries / scheduler passes / ticks / rare kill, under one of 6 "
-        "delivery biases, stage transitions when a stage completes).  Non-trivial = the workflow has >= 3 components after "
+        "some stages; exit script per component (with real engines also launches that raise); the whole stage loop is "
+        "run: random schedule of task exits / postmortem deliveries / finished deliveries - atomic or split in the three "
+        "parts before / under / after comp_lock - / scheduler passes / ticks / rare kill, under one of 6 "
+        "delivery biases, stage transitions when a stage completes) or B. (DoWhile package: loop of 1-4 iterations of "
+        "1-2 components in stage 0/1, consumers of the looped components outside the loop in the same or the next stage, "
+        "same kinds of schedule).  Non-trivial = A: the workflow has >= 3 components after "
         "replication, >= 2 components were launched and at least one scheduler pass ran inside a window in which "
-        "some component had reached a final state that the controller had not recorded yet.  Distinct by "
-        "canonical JSON of (template, scripts, ops).")
+        "some component had reached a final state that the controller had not recorded yet; B: >= 2 iterations, >= 3 "
+        "launches and a scheduler pass ran while a finished-notification was being handled.  Distinct by "
+        "canonical JSON of (template | loop, scripts, ops).")
 
 
 def check_case(ctx, case, ops=None, tag_prefix=""):
@@ -145,6 +158,47 @@ def check_case(ctx, case, ops=None, tag_prefix=""):
     return res
 
 
+def check_loop_case(ctx, case, ops=None, tag_prefix=""):
+    """DoWhile package (case["loop"], see CS.gen_loop_case): real Controller only - the Lean model has no loops.
+    Oracle: every launched component is judged against ALL producers it finally has in the graph (the iterations that
+    were instantiated while the workflow ran)."""
+    rng = random.Random(case.get("seed", 0))
+    run_case = dict(case, _rng=rng)
+    if ops is not None:
+        factory = lambda sim: detsim.scripted(ops, finish=case.get("finish", True))
+    else:
+        factory = lambda sim: CS.random_chooser(rng, case["personality"], 0.0, p_split=case.get("p_split", 0.0))
+    try:
+        res = CS.run_loop(run_case, factory)
+    except Exception as exc:  # noqa: the generated package was rejected / could not be built
+        ctx.tag(tag_prefix + "loop-build-error:" + type(exc).__name__)
+        return None
+    full = dict(case)
+    full["scripts"] = res.scripts
+    full["ops"] = res.ops
+    full["finish"] = res.result != "stopped"
+    lp = case["loop"]
+    tags = [tag_prefix + "loop:result:" + res.result, "loop:iterations=%d" % res.iterations,
+            "loop:condition-by:" + lp["cond"], "loop:engines:" + ("real" if case.get("real") else "fake")]
+    tags += ["loop:consumer:%s-%s" % (c["method"], "same-stage" if c["stage"] == lp["stage"] else "later-stage")
+             for c in lp["consumers"]]
+    kinds = set(op[0] for op in res.ops)
+    tags += ["loop:op:" + k for k in sorted(kinds)]
+    if res.inflight_scheds:
+        tags.append("loop:sched-while-a-finished-notification-is-being-handled")
+    ctx.case({"loop": lp, "scripts": res.scripts, "ops": res.ops},
+             nontrivial=(res.iterations >= 2 and res.inflight_scheds >= 1 and len(res.launches) >= 3), tags=tags)
+    ctx.tag("launches-checked", len(res.launches))
+    for what, ref, prod, at in res.launch_bad:
+        ctx.fail(what, full, {"component": ref, "producer": prod, "after_ops": at, "refs": res.refs,
+                              "final": res.final, "launches": res.launches})
+    if len(res.ops) >= CS.MAX_OPS:
+        ctx.tag("op-budget-exhausted")
+    ctx.compare("no exception escapes a callback run on the controller pool", full, {"errors": []},
+                {"errors": res.pool_errors})
+    return res
+
+
 def gen_case(rng, idx):
     template, cont = CS.gen_workflow(rng)
     return {"template": template, "cont": cont, "scripts": None, "seed": rng.randrange(1 << 30),
@@ -169,7 +223,8 @@ def shrink(what, case):
 
     def still_fails(ops):
         probe = common.Ctx("C01", "quick", 0)
-        res = check_case(probe, dict(case, finish=False), ops=ops)
+        fn = check_loop_case if "loop" in case else check_case
+        res = fn(probe, dict(case, finish=False), ops=ops)
         return res is not None and any(w == what for w, _c, _d in probe.failures)
     ops = common.shrink_list(case["ops"], still_fails, max_steps=60)
     return dict(case, ops=ops, finish=False)
@@ -179,28 +234,44 @@ def setup(ctx):
     ctx.rule = RULE
     ctx.shrinker = shrink
     ctx.assumptions = [
-        "single controller thread: callbacks (finishedCheck, postMortemCheck, _schedule) are atomic with respect to "
-        "each other; real thread interleavings inside RxPY operators and Engine.run are not explored",
-        "engines are stand-ins: a task exit is an event chosen by the harness, Engine.restart is reduced to its "
-        "counters (maxRestarts, restartHookOn, SubmissionFailed cap) without restart hooks",
+        "one thread runs at a time (strict hand-off): a scheduler pass, postMortemCheck and every other callback are "
+        "atomic with respect to each other; finishedCheck is interruptible at the outermost acquisition and release of "
+        "Controller.comp_lock (three parts); notifications of one observe_on pipeline are delivered in emission order "
+        "(as RxPY's ScheduledObserver does), between pipelines in any order; real thread interleavings inside RxPY "
+        "operators and inside Engine.run are not explored",
+        "engines are stand-ins (a task exit is an event chosen by the harness, Engine.restart is reduced to its "
+        "counters: maxRestarts, restartHookOn, SubmissionFailed cap) or - a quarter of the cases - the real Engine with a "
+        "scripted task generator and a restart hook that always prepares the restart (hook answers are C12's business); "
+        "repeating components always use the stand-in",
         "references are ':ref' references (no file has to exist for stage-in to succeed)",
+        "DoWhile cases are checked by the oracle only (the Lean model has no loops)",
     ]
-    ctx.trusted.append("C01/C02: harness/detsim.py (monkey-patched rx schedulers/timers, FakeEngine, queued "
-                       "controller callbacks) faithfully serialises the notification channel; networkx graph API")
+    ctx.trusted.append("C01/C02: harness/detsim.py (monkey-patched rx schedulers/timers, held controller / engine-task "
+                       "pools read through ScheduledObserver.queue, FakeEngine, HLock + worker threads with strict "
+                       "hand-off, recording wrapper of ComponentState.finish) faithfully serialises the notification "
+                       "channel; networkx graph API")
     detsim.install()
 
 
-def run_n(ctx, n):
+def run_n(ctx, n, n_loops=0):
     rng = ctx.rng
     for case in corpus_cases():
-        check_case(ctx, case, ops=case.get("ops"), tag_prefix="corpus:")
+        if "loop" in case:
+            check_loop_case(ctx, case, ops=case.get("ops"), tag_prefix="corpus:")
+        else:
+            check_case(ctx, case, ops=case.get("ops"), tag_prefix="corpus:")
     for i in range(n):
         check_case(ctx, gen_case(rng, i))
+    for i in range(n_loops):
+        check_loop_case(ctx, CS.gen_loop_case(rng))
 
 
 def run(ctx):
     setup(ctx)
-    run_n(ctx, 300 if ctx.tier == "quick" else 3000)
+    if ctx.tier == "quick":
+        run_n(ctx, 300, 80)
+    else:
+        run_n(ctx, 3000, 800)
 
 
 def replay(ctx, doc):
@@ -213,4 +284,7 @@ def replay(ctx, doc):
                 break
     if case is None:
         raise common.InfraError("replay file carries no input")
-    check_case(ctx, case, ops=case.get("ops"), tag_prefix="replay:")
+    if "loop" in case:
+        check_loop_case(ctx, case, ops=case.get("ops"), tag_prefix="replay:")
+    else:
+        check_case(ctx, case, ops=case.get("ops"), tag_prefix="replay:")
